@@ -317,6 +317,10 @@ func differential(rep *vk.Report, r *rand.Rand, idx int) {
 		if !judge("match", res, nil, want, func(gp string) answer { return refMatch(gp, s) }, nil) {
 			continue
 		}
+		if want.ok && operators && idx%50 == 7 && rep.WantSample() {
+			rep.Sample(map[string]any{"suneido_pattern": p.su, "go_pattern": p.goPat, "subject": s,
+				"suneido_result": capStr(res.ok, res.cap), "go_result": capStr(want.ok, want.cap), "verdict": "agree"})
+		}
 		m := suCall(func(*regex.Captures) bool { return pat.Matches(s) })
 		if m.crash != "" {
 			rep.Violate("C37/crash/match", key, map[string]any{"id": id, "panic": m.crash, "api": "Matches"})
